@@ -103,14 +103,17 @@ func (s *set[ElementType]) Replace(elements ReadableSet[ElementType]) (removedEl
 	s.applyMutex.Lock()
 	defer s.applyMutex.Unlock()
 
+	// read the new elements first: the argument may be (a read-only view of) this set
+	newElements := elements.ToSlice()
+
 	removedElements = s.Filter(func(element ElementType) bool {
 		return !elements.Has(element)
 	})
 	s.Clear()
 
-	elements.Range(func(element ElementType) {
+	for _, element := range newElements {
 		s.Set(element, types.Void)
-	})
+	}
 
 	return removedElements
 }
